@@ -253,6 +253,39 @@ func runC15(c *Ctx) {
 			}
 		}
 	}
+	// long fillers: the lexer reads its input through a 4096-byte buffer; a gap that pushes a token
+	// (in particular a \\x escape, which needs look-ahead) across that boundary must not change it
+	if c.Level("buffer-boundary") {
+		progs := []string{"find all 'q' '\\x41\\x42' \"\\x43\\n\" 'z'", "set f to transform return '\\x41' + match end replace all '\\x42\\t' with f '\\x44'", "find all @/a\\/b/ '\\\\' --(c)-- 'x' -- d\n 'y'"}
+		for _, prog := range progs {
+			ts := vtokens(prog)
+			sep := baseSeps(ts)
+			base, pi := c15Eval(layout(ts, sep))
+			if pi != nil || !base.accepted {
+				continue
+			}
+			for g := 1; g < len(ts); g++ {
+				g := g
+				if !c.Unit(func() string { return fmt.Sprintf("long gap %d of: %s", g, prog) }) {
+					continue
+				}
+				used := 0
+				for i := 0; i < g; i++ {
+					used += len(sep[i]) + len(ts[i])
+				}
+				for w := 4096 - used - 12; w <= 4096-used+6; w++ {
+					if w < 1 {
+						continue
+					}
+					for fi, f := range []string{strings.Repeat(" ", w), "--(" + strings.Repeat("c", w) + ")--", strings.Repeat("\n", w)} {
+						s2 := append([]string{}, sep...)
+						s2[g] = f
+						c15Compare(c, base, layout(ts, s2), fmt.Sprintf("longgap/filler%d@%d", fi, g))
+					}
+				}
+			}
+		}
+	}
 	if !c.Level("2-deviations") {
 		return
 	}
